@@ -9,7 +9,7 @@ From Coq Require Import List Arith ZArith QArith Qcanon Lia Permutation.
 From OV Require Import Base.Panic Base.Arith Base.Flat Model.Vector Model.Matrix Model.Sparse Model.SparseOps Inst.QcInst
                        Proofs.SparseBase Proofs.SparseMul Proofs.SparseWf Proofs.SparseHist Proofs.SparseViews
                        Proofs.SparseRefine Proofs.SparseTranspose Proofs.SparseFinal
-                       Proofs.SparseDup Proofs.SparseDupOps Proofs.SparseDupMul Proofs.SparseDupHist Proofs.SparseDupTranspose.
+                       Proofs.SparseDup Proofs.SparseDupOps Proofs.SparseDupMul Proofs.SparseDupHist Proofs.SparseDupTranspose Proofs.SparseDupOrder.
 Import ListNotations.
 Local Open Scope nat_scope.
 
@@ -111,6 +111,33 @@ Proof. vm_compute. auto. Qed.
 Example dup_from_triplets_reversed :
   fl_res (@fl_opt AQ flat_q) (let* s := sp_from_triplets 2 2 (rev dup_ts) in sp_get s 1 1) = [0; 1;  2; 500; 1]%Z /\
   fl_res flat_q (let* s := sp_from_triplets 2 2 (rev dup_ts) in let* D := sp_to_dense s in mget D 1 1) = [2; 2; 1]%Z.
+Proof. vm_compute. auto. Qed.
+
+(* another order of the same triplets that keeps the three (1,1) triplets in the order 2, 30, 500 *)
+Definition dup_ts' : list (triplet AQ) :=
+  [(0, 1, q 7 1); (1, 1, q 2 1); (1, 1, q 30 1); (0, 0, q 1 1); (1, 1, q 500 1)].
+
+Example dup_ts'_in_range : forall t, In t dup_ts' -> trow t < 2 /\ tcol t < 2.
+Proof.
+  intros t Ht. unfold dup_ts' in Ht. cbn [In] in Ht.
+  repeat (destruct Ht as [<-|Ht]; [unfold trow, tcol; cbn [fst snd]; lia|]). destruct Ht.
+Qed.
+
+Example dup_ts_same_duplicate_order : forall i j, i < 2 -> j < 2 -> filter (tmatch i j) dup_ts = filter (tmatch i j) dup_ts'.
+Proof. intros [|[|i]] [|[|j]] Hi Hj; try lia; reflexivity. Qed.
+
+(* the raw storage differs from dup_s ((0,1) = 7 now precedes the (1,1) entries in column 1), the views do not *)
+Example dup_from_triplets_same_order :
+  fl_res dump (sp_from_triplets 2 2 dup_ts') <> dump dup_s /\
+  fl_res (fun s : sparse AQ => fl_list flat_q (dvals s 1 1)) (sp_from_triplets 2 2 dup_ts') = [0; 3;  2; 2; 1;  2; 30; 1;  2; 500; 1]%Z /\
+  fl_res (@fl_opt AQ flat_q) (let* s := sp_from_triplets 2 2 dup_ts' in sp_get s 1 1) = [0; 1;  2; 2; 1]%Z /\
+  fl_res (@fl_mat AQ flat_q) (let* s := sp_from_triplets 2 2 dup_ts' in sp_to_dense s) = [0; 2; 0; 2;  2; 1; 1;  2; 7; 1;  2; 0; 1;  2; 500; 1]%Z.
+Proof. split; [vm_compute; discriminate|]. vm_compute. auto. Qed.
+
+(* the products do not see the order at all: reversed input, same products (and a different get, above) *)
+Example dup_products_reversed :
+  fl_res (fl_list flat_q) (let* s := sp_from_triplets 2 2 (rev dup_ts) in sp_mul s dup_x) = [0; 2;  2; -11; 1;  2; -1064; 1]%Z /\
+  fl_res (fl_list flat_q) (let* s := sp_from_triplets 2 2 (rev dup_ts) in sp_tmul s dup_y) = [0; 2;  2; 5; 1;  2; 3759; 1]%Z.
 Proof. vm_compute. auto. Qed.
 
 (* ---- 3. insert overwrites the first stored duplicate only; transpose keeps the order of the duplicates ---- *)
